@@ -23,6 +23,24 @@ func main() {
 		os.Exit(cmdCheck(os.Args[2:]))
 	case "ssa":
 		cmdSSA(os.Args[2:])
+	case "frame":
+		fe, err := NewFrameEngine("/repo")
+		if err != nil {
+			fmt.Fprintln(os.Stderr, err)
+			os.Exit(2)
+		}
+		obls, as := fe.FrameObligations(os.Args[2:], fe.AutoReadOnly(), nil)
+		bad := 0
+		for _, o := range obls {
+			if o.Result != "unsat" {
+				bad++
+				fmt.Printf("%-6s %s  %s\n       %s\n", o.Result, o.Name, o.Pos, o.Model)
+			}
+		}
+		fmt.Printf("%d frame obligations, %d failing\n", len(obls), bad)
+		for _, a := range as {
+			fmt.Println("assumption:", a)
+		}
 	case "lean":
 		os.Exit(cmdLean(os.Args[2:]))
 	default:
